@@ -249,6 +249,9 @@ class DuckStream:
     def tell(self):
         return self._i.tell()
 
+    def close(self):
+        return self._i.close()
+
 
 def _is_victim(w, idx):
     v = (w.scn.get('faults') or {}).get('only_key')
